@@ -383,7 +383,7 @@ func c09LoopNoExitErrOK(c *core.Ctx, rule, cons string, fn *core.Func, info *typ
 			return true
 		}
 		found = true
-		for i, st := range rs.Body.List {
+		for i, st := range an.Effective(rs.Body.List) {
 			ast.Inspect(st, func(m ast.Node) bool {
 				switch x := m.(type) {
 				case *ast.CallExpr:
